@@ -112,6 +112,12 @@ IDENTITY_EXTRAS = [
         {'build': ['make a', 'make "b c"'], 'args': '-Xfoo %(cores)s'}),
     lambda rng, cfg: cfg['runs'].update({'max_invocation_time': 60, 'min_iteration_time': 0,
                                          'retries_after_failure': 2}),
+    lambda rng, cfg: cfg['executors'][rng.choice(sorted(cfg['executors']))].update(
+        {'args': rng.choice(['5', '2.5', 'true']), 'description': rng.choice(['42', 'forty-two'])}),
+    lambda rng, cfg: cfg['benchmark_suites'][rng.choice(sorted(cfg['benchmark_suites']))].update(
+        {'variable_values': rng.choice([[1, 2.5], ['1', 1], [False, 'x']]), 'cores': rng.choice([[4, '8'], ['2', 2]])}),
+    lambda rng, cfg: cfg['benchmark_suites'][rng.choice(sorted(cfg['benchmark_suites']))].update(
+        {'tags': rng.choice([[1, 't'], ['1'], [2.5]])}),
     lambda rng, cfg: cfg['runs'].update({'ignore_timeouts': True, 'parallel_interference_factor': 2.5,
                                          'execute_exclusively': False}),
 ]
@@ -121,6 +127,13 @@ def gen_identity_config(rng):
     cfg = dp.gen_config(rng, {'env': True, 'max_exp': 2})
     for f in rng.sample(IDENTITY_EXTRAS, rng.randint(0, 3)):
         f(rng, cfg)
+    if rng.random() < 0.4:   # extra_args of a non-string YAML type: int, float, bool (and the look-alike strings)
+        su = cfg['benchmark_suites'][rng.choice(sorted(cfg['benchmark_suites']))]
+        b = su['benchmarks'][-1]
+        name = b if isinstance(b, str) else list(b)[0]
+        det = {} if isinstance(b, str) else dict(b[name])
+        det['extra_args'] = rng.choice([6, '6', 2.5, True, 0, '0'])
+        su['benchmarks'][-1] = {name: det}
     if rng.random() < 0.3:   # folded scalar with trailing newline
         su = cfg['benchmark_suites'][rng.choice(sorted(cfg['benchmark_suites']))]
         b = su['benchmarks'][0]
@@ -193,10 +206,18 @@ def identity_check(ck, n):
                             {'equal': ab['reload_is_configured']}, TH_ID)
             # oracle: a new session recognises the recorded benchmark / run as the configured one
             if not same:
-                diff = [k for k in rec if rec[k] != run2.benchmark.as_dict().get(k)]
-                ck.oracle_fail('recognised', inp, {'differs_in': diff, 'recorded_env': rec['runDetails'].get('env'),
-                                                   'configured_env': env},
-                               {'class': 'env_tilde' if has_tilde else 'other', 'level': 'identity'})
+                differ = []
+                for attr in fields['Benchmark']:
+                    a, b = getattr(back, attr, None), getattr(run2.benchmark, attr, None)
+                    if a != b or type(a) is not type(b) and not hasattr(a, '__dict__'):
+                        differ.append('%s: reloaded %r, configured %r' % (attr, a if not hasattr(a, '__dict__') else '...',
+                                                                          b if not hasattr(b, '__dict__') else '...'))
+                env_differs = any(d.startswith('run_details') for d in differ) and \
+                    (back.run_details.env != run2.benchmark.run_details.env)
+                ck.oracle_fail('recognised', inp, {'fields_that_differ': differ,
+                                                   'recorded_env': rec['runDetails'].get('env'), 'configured_env': env},
+                               {'class': 'env_tilde' if (has_tilde and env_differs) else
+                                'field:' + (differ[0].split(':')[0] if differ else 'nested'), 'level': 'identity'})
             rr = dict(rec_run, benchmark_id=0)
             back_run = RunId.from_dict(json.loads(json.dumps(rr)), run2.benchmark)
             if not (back_run == run2 and hash(back_run) == hash(run2)):
@@ -243,18 +264,44 @@ def field_lists(ck, fields, run):
 
 
 # ------------------------------------------------------------------ B lines
-SAFE = ['ms', 'kb', 'total', 'mem', 'alloc rate', 'x%y', '~a', 'Größe', 'ops/s', 'a:b', 'µs', '100%%', '', ' lead']
+SAFE = ['ms', 'kb', 'total', 'mem', 'alloc rate', 'x%y', '~a', 'Größe', 'ops/s', 'a:b', 'µs', '100%%', 'ms / op',
+        'GC time', 'a  b', 'q"x', '', ' lead', 'trail ', '#c', 'L1 d-cache miss/s']
 HOSTILE = [('tab_in_criterion', 'crit', 'me\tm'), ('cr_in_criterion', 'crit', 'me\rm'), ('tab_in_unit', 'unit', 'ms\top'),
            ('cr_in_unit', 'unit', 'ms\r'), ('tab_in_criterion', 'crit', 'total\tx'), ('cr_in_unit', 'unit', '\rms'),
            ('separator_in_run_columns', 'cols', 'folded args\n'), ('separator_in_run_columns', 'cols', 'a\tb')]
 
 
 class _FakeRun(object):
+    warmup_iterations = 0
+
     def __init__(self, cols):
         self.cols = cols
+        self.loaded = []
 
     def as_str_list(self, rid):
         return list(self.cols) + [str(rid)]
+
+    def loaded_data_point(self, data_point, _warmup):
+        self.loaded.append(list(data_point.get_measurements()))
+
+
+def real_parse_line(table, line):
+    """one line through the loader's own `_FilePersistence._parse_data_line` (not a re-implementation of
+    its splitting): returns the Measurement it built, or None for the tolerated ValueError / IndexError"""
+    from rebench.persistence import _FilePersistence
+    pers = object.__new__(_FilePersistence)
+    pers._id_to_run_id = table
+    pers._data_filename = 'line.txt'
+    fake = table[0]
+    del fake.loaded[:]
+    try:
+        dpt, _prev = pers._parse_data_line(None, line, 0, None, None, None)
+    except (ValueError, IndexError):
+        return None
+    if fake.loaded:
+        return fake.loaded[-1][-1]
+    ms = dpt.get_measurements()
+    return ms[-1] if ms else None
 
 
 def line_check(ck, n):
@@ -264,7 +311,7 @@ def line_check(ck, n):
     cases = []
     for i in range(n):
         kind = 'plain'
-        unit, crit = rng.choice(SAFE[:11]), rng.choice(SAFE)
+        unit, crit = rng.choice(SAFE[:13]), rng.choice(SAFE)
         cols = [rng.choice(['B', 'Bench-1', 'ünï', 'a b', '%(x)s']), 'E', 'S', rng.choice(['', 'x', 'a b', '7']),
                 rng.choice(['', '1', '4']), rng.choice(['', 's', '10']), rng.choice(['', 'v']), rng.choice(['', 't1']),
                 rng.choice(['', 'm1'])]
@@ -307,13 +354,16 @@ def line_check(ck, n):
         with open(tmp, 'r') as f:
             for line in f:
                 lines.append(line.rstrip('\n'))
-                try:
-                    pm = Measurement.from_str_list(table, line.rstrip('\n').split('\t'))
-                    rid = int(line.rstrip('\n').split('\t')[-1])
+                pm = real_parse_line(table, line)
+                if pm is None:
+                    parsed.append(None)
+                else:
+                    try:
+                        rid = int(line.rstrip('\n').split('\t')[-1])
+                    except ValueError:
+                        rid = None
                     parsed.append({'inv': pm.invocation, 'it': pm.iteration, 'value': pm.value, 'unit': pm.unit,
                                    'crit': pm.criterion, 'rid': rid})
-                except (ValueError, IndexError):
-                    parsed.append(None)
         model_parsed = [None if p is None else dict(p, value=float(lib.unfrac(p['value']))) for p in ans['parsed']]
         ck.count('line:' + c['kind'])
         ck.case(nontrivial_key=('line', text), sample={'text': text} if c['kind'] != 'plain' else None)
@@ -457,6 +507,24 @@ def judge_history(ck, inp, probe, outputs, observed, ans, klass=None):
                                                                'files': len(r['files'])},
                                    {'class': 'run_in_%d_files' % len(r['files']) if len(r['files']) > 1 else klass,
                                     'what': 'samples'})
+        # every measurement recorded by earlier sessions reloads with the same invocation, iteration,
+        # criterion, unit and value (6 decimals) -- per criterion, not only the totals
+        if getattr(ob, 'reloaded', None) is not None and klass != 'separator_in_run_columns' and not ob.crash:
+            want = set()
+            for i, invs in recorded.items():
+                for inv in invs:
+                    for j, msx in enumerate(outputs[i][inv - 1]):
+                        for (crit, unit, v) in msx:
+                            want.add((i, inv, j + 1, crit, unit, float(c06.fmt6_independent(v))))
+            got = set((k, a, b, c, u, round(float(v), 6)) for (k, a, b, c, u, v) in ob.reloaded)
+            want = set((k, a, b, c, u, round(v, 6)) for (k, a, b, c, u, v) in want)
+            if got != want:
+                missing = sorted(want - got, key=str)[:4]
+                extra = sorted(got - want, key=str)[:4]
+                odd = [m for m in missing if any(ch in m[3] for ch in ' %#"\'/')]
+                ck.oracle_fail('measurement_reloads', sinp, {'not_reloaded': missing, 'unexpected': extra,
+                                                             'n_written': len(want), 'n_reloaded': len(got)},
+                               {'class': 'criterion_with_unusual_characters' if odd else klass, 'level': 'session'})
         # recognised: nothing recorded is started again
         starts = [s for s in ob.starts if s[0] != 'report']
         last = len(starts) - 1     # the process that was running when an aborted session stopped
